@@ -47,6 +47,12 @@ class Harness(object):
         io.phase = 'accepted'
         self.ios.append(io)
         codec, pv = self.codec, self.pv
+        if self.next_mode == 'hold-greet':
+            # unsolicited (and harmless: unknown id) data right after accept,
+            # so that whoever selects on the new transport first finds it
+            # readable
+            io.send_frame(0x7E, b'greeting')
+            self.next_mode = 'hold'
         hs = scripts.read_handshake(io)
         if hs is None:
             io.phase = 'closed-early'
@@ -222,6 +228,8 @@ def stale_thread_findings(run, log, w):
         elif foreign[3] in ('io.shutdown', 'io.close') and path.endswith(
                 'run>_handle_exception>disconnect'):
             key = 'stale-thread/error-teardown-closes-successor'
+        elif foreign[3] == 'io.read':
+            key = 'stale-thread/reads-successor-transport'
         else:
             key = 'threads/io-on-foreign-transport/%s/via:%s' % (foreign[3],
                                                                  path)
@@ -739,6 +747,86 @@ def check_vs_lock_case(run, rng, pv, second_call):
             pc.safe_disconnect(conn)
 
 
+def stale_read_case(run, rng, pv, idx):
+    """Delay injection at one statement: the networking thread is held just
+    before it calls read_packet() (i.e. after it has tested its interrupt
+    flag) while a user thread disconnects and connects again.  The held thread
+    must not go on to read from the new connection's transport."""
+    import inspect
+    import sys
+    from minecraft.networking import connection as C
+    src, first = inspect.getsourcelines(C.NetworkingThread._run)
+    lines = [first + i for i, ln in enumerate(src) if 'read_packet(' in ln]
+    if not lines:
+        return 'no read_packet( call found in NetworkingThread._run'
+    code = C.NetworkingThread._run.__code__
+    H = Harness(pv)
+    rec = pc.Recorder()
+    conn = None
+    held, release = threading.Event(), threading.Event()
+    armed = [False]
+    mon = sys.monitoring
+    TOOL = 4
+    w = {'pv': pv, 'case': idx}
+
+    def on_line(co, lineno):
+        if co is code and lineno in lines and armed[0]:
+            armed[0] = False
+            held.set()
+            release.wait(5.0)
+        return None
+    try:
+        K = pc.monitored_connection_class()
+        conn = K('127.0.0.1', H.server.port, username='vfuser',
+                 allowed_versions={pv}, handle_exception=rec.handle_exception,
+                 handle_exit=rec.handle_exit)
+        conn.vf_log = rec.log
+        conn.vf_send_hook = lambda kind, proxy, data: rec.log.emit(
+            'io.send.path', gen=proxy.gen, path=call_chain())
+        conn.connect()
+        if not pc.wait_for(lambda: H.ios and getattr(H.ios[-1], 'phase', '')
+                           == 'play', 10.0):
+            return 'first session never reached play'
+        mon.use_tool_id(TOOL, 'vf-stale-read')
+        mon.register_callback(TOOL, mon.events.LINE, on_line)
+        mon.set_local_events(TOOL, code, mon.events.LINE)
+        armed[0] = True
+        if not held.wait(5.0):
+            return 'networking thread never reached the read'
+        # the thread has passed its interrupt test and is about to read
+        conn.disconnect(immediate=True)
+        H.next_mode = 'hold-greet'
+        conn.connect()
+        new = None
+        if pc.wait_for(lambda: len(H.ios) >= 2, 5.0):
+            new = H.ios[-1]
+        time.sleep(0.01)          # let the greeting arrive
+        release.set()
+        time.sleep(0.05)
+        run.count('stale_read_cases')
+        stale = stale_thread_findings(run, rec.log, w)
+        ok = new is not None and pc.wait_for(
+            lambda: getattr(new, 'phase', '') == 'play', 10.0) and \
+            H.alive(new)
+        if not ok and not stale:
+            run.violation('stale-read/new-session-broken', 'after disconnect'
+                          '(); connect() while the old networking thread was '
+                          'about to read, the new session does not work',
+                          dict(w, exc=repr(rec.exceptions[:2])))
+        return None
+    finally:
+        release.set()
+        try:
+            mon.set_local_events(TOOL, code, 0)
+            mon.register_callback(TOOL, mon.events.LINE, None)
+            mon.free_tool_id(TOOL)
+        except Exception:
+            pass
+        H.stop()
+        if conn is not None:
+            pc.safe_disconnect(conn)
+
+
 def stress_case(run, rng, pv, idx):
     """Two user threads issue random calls concurrently."""
     from minecraft.exceptions import InvalidState
@@ -896,6 +984,17 @@ def run(run):
             continue
         err = None
         for attempt in range(3):
+            err = stale_read_case(run, rng, rng.choice((757, 404)), i)
+            if err is None:
+                break
+        run.case(('stale-read', i))
+        if err:
+            run.inconclusive_because('stale-read %d: %s' % (i, err))
+    for i in range(40 if thorough else 8):
+        if not run.mine(i):
+            continue
+        err = None
+        for attempt in range(3):
             err = check_vs_lock_case(run, rng, rng.choice((757, 404)),
                                      ('status', 'connect')[i % 2])
             if err is None:
@@ -921,4 +1020,5 @@ def run(run):
     run.require('stress_runs', 2)
     run.require('gap.reached', 2)
     run.require('check_vs_lock_cases', 2)
+    run.require('stale_read_cases', 2)
     run.require('final_reuse_probes', 20)
